@@ -205,3 +205,84 @@ Proof.
   - eexists. split; vm_compute; reflexivity.
   - eexists. split; [vm_compute; reflexivity|]. split; [vm_compute; reflexivity|]. vm_compute. discriminate.
 Qed.
+
+(* ================= non-vacuity of the premises ================= *)
+From Symv Require Import Cats.Layout Cats.LayoutInst Cats.StructProofs Cats.StructRoundTrip Cats.StructDecide.
+
+Definition ex_descriptor : descriptor :=
+  [("type", DStr (of_string "transfer_transaction_v1")); ("fee", DInt 1000);
+   ("mosaics", DList [DDict [("mosaic_id", DInt 9); ("amount", DInt 2)]; DDict [("mosaic_id", DInt 3); ("amount", DInt 1)]])].
+Definition ex_created : value := match create sc_cfg false true 152 ex_descriptor with Ok v => v | _ => VNull end.
+
+(* a struct value is encoded by its own class, whatever static type the caller names *)
+Lemma enc_struct_value_ignores_static_type : forall OP tm k t t' cls e,
+  enc OP tm (S k) t (VStruct cls e) = enc OP tm (S k) t' (VStruct cls e).
+Proof. intros. reflexivity. Qed.
+
+(* conversion hint only: unfold the wrappers m_enc / m_decf before the interpreter's fixpoints *)
+Local Strategy expand [m_enc m_decf].
+
+(* the Section hypothesis layout_roundtrip_premise of create_then_enc_dec follows, for ANY schema, from the C01 theorem RT_decf when adm is
+   the C01 fragment at the abstract root type (struct values, nesting n with 2n + 1 <= type_fuel) *)
+Lemma layout_roundtrip_premise_from_C01 : forall tm root n, (2 * n + 1 <= type_fuel)%nat -> is_abs tm root = true ->
+  forall v b, (admf tm n root v /\ exists cls e, v = VStruct cls e) -> m_enc tm "" v = Ok b -> m_decf tm root b = Ok v.
+Proof.
+  intros tm root n Hk Habs v b [Ha [cls [e ->]]] He. unfold m_enc, m_decf in *.
+  assert (E : type_fuel = S 23) by reflexivity. rewrite E in *. clear E.
+  rewrite (enc_struct_value_ignores_static_type ops_now tm 23 "" root cls e) in He.
+  rewrite <- (app_nil_r b).
+  exact (proj1 (RT_decf tm n (S 23) root (VStruct cls e) b [] Hk Ha Habs He)).
+Qed.
+
+(* create_then_enc_dec: its Section hypothesis is SATISFIABLE with a non-trivial admissibility predicate on the shipped Symbol tables
+   (root "Transaction", adm := the C01 fragment, nesting <= 11); a created transaction (keyed array sorted by autosort) lies in that
+   fragment and encodes *)
+Example enc_dec_premise_nonvacuous :
+  let adm := fun v => admf (n_tm sc_cfg) 11 "Transaction" v /\ exists cls e, v = VStruct cls e in
+  (forall v b, adm v -> m_enc (n_tm sc_cfg) "" v = Ok b -> m_decf (n_tm sc_cfg) "Transaction" b = Ok v)
+  /\ create sc_cfg false true 152 ex_descriptor = Ok ex_created
+  /\ adm ex_created
+  /\ match m_enc (n_tm sc_cfg) "" ex_created with Ok b => length b = (160 + 2 * 16)%nat | _ => False end.
+Proof.
+  cbv zeta. split.
+  - apply layout_roundtrip_premise_from_C01; [vm_compute; repeat constructor|vm_compute; reflexivity].
+  - split; [vm_compute; reflexivity|]. split; [|vm_compute; reflexivity].
+    split; [apply admfb_sound; vm_compute; reflexivity|]. vm_compute. eexists. eexists. reflexivity.
+Qed.
+Print Assumptions enc_dec_premise_nonvacuous.
+
+(* the remaining premises on the shipped Symbol tables: distinct keys and a successful create_core (create_holds_values_partial); the
+   network member (created_network_is_facade_identifier); the version member paired with TRANSACTION_VERSION and not named by the
+   descriptor (created_type_and_version_are_class_constants); one accepted entry per coercion form (the four coerce theorems); a successful extend
+   (post_processing_touches_only) *)
+Example create_premises_nonvacuous :
+  let cls := "TransferTransactionV1" in
+  (NoDup (map fst ex_descriptor) /\ match create_core sc_cfg false 152 ex_descriptor with Ok (VStruct c _) => c = cls | _ => False end)
+  /\ (n_network_key sc_cfg <> "type" /\ rule_for sc_cfg cls (n_network_key sc_cfg) = Some (REnum "NetworkType")
+      /\ option_map f_name (member_of sc_cfg cls (n_network_key sc_cfg)) = Some "network")
+  /\ match lookup_struct (n_tm sc_cfg) cls with
+     | Some s => match find_field (settable_fields s) "version" with
+                 | Some f => In f (settable_fields s) /\ option_map f_name (paired_const s f) = Some "TRANSACTION_VERSION"
+                             /\ NoDup (map f_name (settable_fields s))
+                             /\ ~ In (py_name (f_name f)) (map fst (dict_set ex_descriptor (n_network_key sc_cfg) (DInt 152)))
+                 | None => False
+                 end
+     | None => False
+     end
+  /\ (parse_pod sc_cfg "Amount" (DInt 5) = Ok (DObj OCodec "Amount" (VInt 5))
+      /\ SdkHash256 <> SdkAddress
+      /\ match parse_sdk sc_cfg SdkHash256 (DStr (of_string "00112233445566778899aabbccddeeff00112233445566778899AABBCCDDEEFF")) with Ok _ => True | _ => False end
+      /\ match parse_enum sc_cfg "LinkAction" (DStr (of_string "link")) with Ok _ => True | _ => False end
+      /\ match parse_flags sc_cfg "MosaicFlags" (DStr (of_string "transferable restrictable")) with Ok _ => True | _ => False end)
+  /\ match extend sc_cfg 152 ex_created with Ok v' => vget v' "fee" = vget ex_created "fee" | _ => False end.
+Proof.
+  cbv zeta. split; [split; [|vm_compute; reflexivity]|].
+  { vm_compute. repeat constructor; cbn [In]; intuition discriminate. }
+  split; [vm_compute; repeat split; try reflexivity; discriminate|].
+  split.
+  { vm_compute. split; [auto 12|]. split; [reflexivity|]. split; [repeat constructor; cbn [In]; intuition discriminate|].
+    intros H. repeat (destruct H as [H|H]; [discriminate H|]). exact H. }
+  split; [|vm_compute; reflexivity].
+  split; [vm_compute; reflexivity|]. split; [discriminate|]. vm_compute. repeat split; exact I.
+Qed.
+Print Assumptions create_premises_nonvacuous.
